@@ -53,59 +53,12 @@ import (
 
 // KnownIssues: key -> true = mask the defect (shape avoided / observation only counted),
 // false = let the test fail on it.
-var KnownIssues = map[string]bool{
-	// IPRouteBody.decodeFromBytes stores the TABLEID field into b.Mtu (copy/paste of the MTU
-	// block) and never sets b.tableID; serialize writes b.tableID.
-	// Reproducer (ZAPI 6 frr8.1): IPRouteBody{Message: messageTableID (0x100), tableID: 7, ...} ->
-	// serialize -> decode gives tableID 0 and Mtu 7, which re-serialises with table id 0.
-	"zebra-tableid-decoded-into-mtu": true,
-	// IPRouteBody.serialize writes the whole 1024-octet opaque.data array instead of
-	// data[:opaque.length]; decodeFromBytes reads opaque.length octets and then fails with
-	// "message length invalid (last)".  Reproducer (frr8/8.1/8.2): Message |= messageOpaque
-	// (0x400), opaque.length = 4.
-	"zebra-opaque-full-array": true,
-	// messageSRTE is tested as the raw constant 0x200 in Nexthop.encode/decode although the frr7.5
-	// value is 0x100 (MessageFlag.ToEach shifts it), and IPRouteBody.serialize tests
-	// messageOpaque.ToEach() (= 0x200 on frr7.5) without the ">= frr8" guard the decoder has:
-	// on frr7.5 a route with SRTE colour (0x200) serialises an opaque block the decoder does not
-	// expect ("message length invalid (last)"), and with the frr7.5 bit 0x100 the colour is
-	// silently dropped.  Reproducer (frr7.5): Message = MessageNexthop|0x200, one nexthop with
-	// srteColor 5.
-	"zebra-frr7.5-srte-bit": true,
-	// Operator precedence in Nexthop.encode: `flags&Label > 0 || (message&MessageLabel > 0 &&
-	// version == 5 || version == 6 && frr && 6 <= v < 7.3)` emits the label block for EVERY
-	// nexthop on ZAPI 6 frr6/7.0/7.1/7.2 even when MessageLabel is not set; Nexthop.decode
-	// (correctly parenthesised) does not read it.  Reproducer (frr7.2): Message = MessageNexthop,
-	// one IPv4 nexthop -> "message length invalid (last)".
-	"zebra-label-block-precedence": true,
-	// IPRouteBody.decodeFromBytes tests `Message & messageBackupNexthops` (0x40) for every
-	// flavour, but 0x40 is MessageLabel before frr7.3 and backup nexthops only exist since frr7.4
-	// (serialize has the version guard): on ZAPI 5 and on ZAPI 6 frr6..7.2 every route with the
-	// label flag is decoded as if a backup-nexthop list followed ("messageBackupNexthops message
-	// length invalid" or a mis-framed body).  Together with zebra-label-block-precedence no
-	// IPRouteBody with nexthops round-trips on frr6/7.0/7.1/7.2.
-	// Reproducer (frr7 or frr5): IPRouteBody{Message: MessageLabel, Prefix 10.0.0.0/24}.
-	"zebra-backup-nexthops-no-version-guard": true,
-	// IPRouteBody.serialize allocates the 12-octet fixed part (32-bit message field, frr7.5+) for
-	// frr7.4 as well (`software.version < 7.4` instead of `< 7.5`) but then writes the 8-bit
-	// message layout: every route sent to frr7.4 carries three stray zero octets after the safi,
-	// and the package's own decoder reads them as family 0 ("unknown address family: 0").
-	// Reproducer (frr7.4): any IPRouteBody, e.g. {Prefix 10.0.0.0/24}.
-	"zebra-frr7.4-route-header-size": true,
-	// RegisteredNexthop.serialize for frr8.2 writes safi over buf[1:3] (on top of
-	// resolve_via_default) instead of buf[2:4] and the prefix length into buf[3] instead of
-	// buf[6]; decodeFromBytes then sees prefix length 0 and an invalid address; len() ignores the
-	// three extra octets, so a second nexthop is mis-framed.  Reproducer (frr8.2):
-	// NexthopRegisterBody{Nexthops: [{Family: AF_INET, Prefix: 192.0.2.1}]}.
-	"zebra-nexthop-register-frr8.2": true,
-	// HelloBody.decodeFromBytes requires 4 octets for ZAPI 4 although the ZAPI 4 hello is 3
-	// octets long (what HelloBody.serialize emits): the package's own ZAPI 4 hello is rejected
-	// ("not all ZAPI message body").
-	"zebra-hello-v4-length": true,
-	// NexthopUpdateBody.serialize (frr8.2) does not emit the safi/match-prefix block the frr8.2
-	// decoder expects (the encoder is marked "Temporary code").
-	"zebra-nexthop-update-frr8.2": true,
-}
+// (empty: zebra-tableid-decoded-into-mtu, zebra-opaque-full-array, zebra-frr7.5-srte-bit,
+// zebra-label-block-precedence, zebra-backup-nexthops-no-version-guard,
+// zebra-frr7.4-route-header-size, zebra-nexthop-register-frr8.2, zebra-hello-v4-length,
+// zebra-nexthop-update-frr8.2, zebra-newsoftware-cumulus-renamed, zebra-newsoftware-zapi5-default
+// and zebra-evpn-v5-no-nexthop-panics are fixed; c19ZProbes keeps their reproducers)
+var KnownIssues = map[string]bool{}
 
 // ---------------------------------------------------------------------------
 // flavours
@@ -132,7 +85,6 @@ var c19ZFlavours = func() []c19ZFlavour {
 	for _, n := range []string{"frr4", "frr5", "cumulus", ""} {
 		add(5, n)
 	}
-	// NewSoftware turns "cumulus" (no digits) into frr; the cumulus tables are only reachable with a version suffix
 	out = append(out, c19ZFlavour{5, NewSoftware(5, "cumulus3.7"), "v5-cumulus3.7"})
 	for _, n := range []string{"frr6", "frr7", "frr7.1", "frr7.2", "frr7.3", "frr7.4", "frr7.5", "frr8", "frr8.1", "frr8.2", ""} {
 		add(6, n)
@@ -452,7 +404,7 @@ func c19ZNexthop(s *verifgen.Src, f c19ZFlavour, v6pfx bool, msg MessageFlag, ev
 	if evpn {
 		copy(n.rmac[:], s.Bytes(6))
 	}
-	if msg&messageSRTE > 0 && f.frr(7.5, 100) {
+	if msg&messageSRTE.ToEach(f.v, f.sw) > 0 && f.frr(7.5, 100) {
 		n.srteColor = s.U32()
 	}
 	return n
@@ -507,9 +459,10 @@ func c19ZRoute(s *verifgen.Src, f c19ZFlavour, st *verifkit.Stats, b *c19ZBuilt)
 	evpnBit := flagEvpnRoute.ToEach(f.v, f.sw)
 	r.Flags = Flag(s.Intn(1 << 11))
 	evpn := false
-	if f.v == 5 {
-		r.Flags &^= evpnBit
-	} else if s.Chance(1, 5) {
+	r.Flags &^= evpnBit
+	if s.Chance(1, 5) {
+		// (on ZAPI 5 the router MAC travels in front of the prefix and is taken from / decoded into a
+		// nexthop of its own: the request does not decode to an equal body, see c19ZBuild)
 		r.Flags |= evpnBit
 	}
 	evpn = r.Flags&evpnBit > 0
@@ -542,27 +495,7 @@ func c19ZRoute(s *verifgen.Src, f c19ZFlavour, st *verifkit.Stats, b *c19ZBuilt)
 		r.srcPrefix.Family = 0 // not on the wire: the family is that of the prefix
 	}
 	if f.v == 5 || f.frr(0, 7.3) { // flavours with MessageLabel (0x40): one label block per nexthop
-		wantLabel := s.Bool()
-		if f.frr(6, 7.3) && hasNH && !wantLabel {
-			// the encoder emits the label block on these flavours whether or not the bit is set
-			if c19ZMask(st, "zebra-label-block-precedence") {
-				wantLabel = true
-			} else {
-				b.issue = "zebra-label-block-precedence"
-			}
-		}
-		if wantLabel {
-			if c19ZMask(st, "zebra-backup-nexthops-no-version-guard") {
-				wantLabel = false
-				if f.frr(6, 7.3) && hasNH { // neither form of a route with nexthops decodes on these flavours
-					r.Message &^= MessageNexthop
-					hasNH = false
-				}
-			} else {
-				b.issue = "zebra-backup-nexthops-no-version-guard"
-			}
-		}
-		if wantLabel {
+		if s.Bool() {
 			r.Message |= MessageLabel
 		}
 	}
@@ -572,11 +505,8 @@ func c19ZRoute(s *verifgen.Src, f c19ZFlavour, st *verifkit.Stats, b *c19ZBuilt)
 	}
 	tableBit := messageTableID.ToEach(f.v, f.sw)
 	if !(f.v == 5 && f.sw.name == "frr" && f.sw.version == 4) && s.Chance(1, 4) {
-		if !c19ZMask(st, "zebra-tableid-decoded-into-mtu") {
-			r.Message |= tableBit
-			r.tableID = 1 + uint32(s.Intn(1000))
-			b.issue = "zebra-tableid-decoded-into-mtu"
-		}
+		r.Message |= tableBit
+		r.tableID = 1 + uint32(s.Intn(1000))
 	}
 	if f.frr(8, 100) {
 		if bit(messageNhg) {
@@ -586,17 +516,17 @@ func c19ZRoute(s *verifgen.Src, f c19ZFlavour, st *verifkit.Stats, b *c19ZBuilt)
 		if s.Chance(1, 4) {
 			r.Message |= messageOpaque
 			r.opaque.length = uint16(s.Len(int(messageOpaqueLenth)))
-			if c19ZMask(st, "zebra-opaque-full-array") {
+			if s.Chance(1, 8) {
 				r.opaque.length = messageOpaqueLenth
-			} else if r.opaque.length != messageOpaqueLenth {
-				b.issue = "zebra-opaque-full-array"
 			}
 			copy(r.opaque.data[:r.opaque.length], s.Bytes(int(r.opaque.length)))
 		}
-	} else if f.frr(7.5, 8) && s.Chance(1, 4) {
-		if !c19ZMask(st, "zebra-frr7.5-srte-bit") {
-			r.Message |= messageSRTE
-			b.issue = "zebra-frr7.5-srte-bit"
+	} else if f.frr(7.5, 8) {
+		if s.Chance(1, 4) {
+			r.Message |= messageSRTE.ToEach(f.v, f.sw) // 0x100 on frr7.5
+		}
+		if s.Chance(1, 8) {
+			r.Message |= 0x200 // not defined on frr7.5 (MESSAGE_SRTE / MESSAGE_OPAQUE of frr8 after conversion): carried, no block
 		}
 	}
 	auto := s.Chance(1, 5)
@@ -635,7 +565,7 @@ func c19ZRoute(s *verifgen.Src, f c19ZFlavour, st *verifkit.Stats, b *c19ZBuilt)
 		lab(hasBackup, "backup-nexthops")
 		lab(len(r.backupNexthops) > 0, "backup-nexthops>0")
 		lab(f.frr(8, 100) && r.Message&messageNhg > 0, "nhgid")
-		lab(f.frr(7.5, 100) && r.Message&messageSRTE > 0, "srte-color")
+		lab(f.frr(7.5, 100) && r.Message&messageSRTE.ToEach(f.v, f.sw) > 0, "srte-color")
 		lab(r.Message&messageOpaque > 0 && f.frr(8, 100), "opaque")
 		lab(r.tableID != 0, "table-id")
 		st.Label(fmt.Sprintf("route-nexthops-%d", min(len(r.Nexthops), 5)))
@@ -671,13 +601,6 @@ func c19ZBuild(s *verifgen.Src, f c19ZFlavour, st *verifkit.Stats) c19ZBuilt {
 			h.sessionID, h.synchronous = s.U32(), uint8(s.Intn(2))
 		}
 		b.cmd, b.body, b.symm = Hello, h, true
-		if f.v == 4 {
-			if c19ZMask(st, "zebra-hello-v4-length") {
-				b.symm = false
-			} else {
-				b.issue = "zebra-hello-v4-length"
-			}
-		}
 	case "router-id-add":
 		b.cmd, b.body = routerIDAdd, &routerIDUpdateBody{afi: afi(1 + s.Intn(2))}
 	case "interface-add":
@@ -702,12 +625,8 @@ func c19ZBuild(s *verifgen.Src, f c19ZFlavour, st *verifkit.Stats) c19ZBuilt {
 			}
 		}
 		b.body, b.symm, b.viaMsg = r, f.v >= 5, true
-		if f.frr(7.4, 7.5) {
-			if c19ZMask(st, "zebra-frr7.4-route-header-size") {
-				b.symm = false
-			} else {
-				b.issue = "zebra-frr7.4-route-header-size"
-			}
+		if f.v == 5 && r.Flags&flagEvpnRoute.ToEach(f.v, f.sw) > 0 {
+			b.symm = false // the decoder appends a nexthop of its own that holds the router MAC
 		}
 	case "nexthop-register":
 		n := 1 + s.Len(4)
@@ -721,13 +640,6 @@ func c19ZBuild(s *verifgen.Src, f c19ZFlavour, st *verifkit.Stats) c19ZBuilt {
 			nb.Nexthops = append(nb.Nexthops, rn)
 		}
 		b.cmd, b.body, b.symm, b.rich = verifgen.Pick(s, []APIType{nexthopRegister, nexthopUnregister}), nb, true, n >= 2
-		if f.frr(8.2, 100) {
-			if c19ZMask(st, "zebra-nexthop-register-frr8.2") {
-				b.symm = false
-			} else {
-				b.issue = "zebra-nexthop-register-frr8.2"
-			}
-		}
 	case "nexthop-update":
 		v6 := s.Bool()
 		nu := &NexthopUpdateBody{Prefix: Prefix{Family: c19ZFamily(v6), Prefix: c19ZAddr(s, v6)}, Metric: s.U32()}
@@ -742,16 +654,12 @@ func c19ZBuild(s *verifgen.Src, f c19ZFlavour, st *verifkit.Stats) c19ZBuilt {
 			nu.Type, nu.instance = RouteType(s.Intn(int(routeMax))), s.U16()
 		}
 		if f.frr(7.5, 100) && s.Bool() {
-			nu.Message, nu.srteColor = messageSRTE, s.U32()
+			nu.Message, nu.srteColor = messageSRTE.ToEach(f.v, f.sw), s.U32()
+		}
+		if f.frr(8.2, 100) {
+			nu.Safi = Safi(s.Intn(int(safiMax) + 1))
 		}
 		b.cmd, b.body, b.symm, b.viaMsg = nexthopUpdate, nu, true, true
-		if f.frr(8.2, 100) {
-			if c19ZMask(st, "zebra-nexthop-update-frr8.2") {
-				b.symm = false
-			} else {
-				b.issue = "zebra-nexthop-update-frr8.2"
-			}
-		}
 	case "label-manager-connect":
 		b.cmd = verifgen.Pick(s, []APIType{labelManagerConnect, labelManagerConnectAsync})
 		b.body = &labelManagerConnectBody{redistDefault: RouteBGP, instance: s.U16()}
@@ -1596,7 +1504,152 @@ func runC19Z(c c19ZCase, st *verifkit.Stats) *verifkit.Failure {
 	}
 }
 
+// ---------------------------------------------------------------------------
+// probes: deterministic reproducers, one per finding (fixed or open); Sig = the key
+// ---------------------------------------------------------------------------
+
+func c19ZFl(name string) c19ZFlavour {
+	for _, f := range c19ZFlavours {
+		if f.name == name {
+			return f
+		}
+	}
+	panic("no flavour " + name)
+}
+
+// c19ZProbeRT: body.serialize -> decodeFromBytes into a fresh body -> equal rendering -> same octets again.
+func c19ZProbeRT(key, flavour string, body Body) *verifkit.Failure {
+	f := c19ZFl(flavour)
+	fail := func(format string, a ...any) *verifkit.Failure {
+		return verifkit.Failf(key, "[%s] %s", flavour, fmt.Sprintf(format, a...))
+	}
+	var wire []byte
+	var err error
+	if fl := c19ZSafely("serialize", func() { wire, err = body.serialize(f.v, f.sw) }); fl != nil {
+		return fail("%s", fl.Msg)
+	}
+	if err != nil {
+		return fail("%s does not serialise: %v", c19ZBodyName(body), err)
+	}
+	pb := c19ZNewBody(body, RouteAdd.ToEach(f.v, f.sw))
+	if fl := c19ZSafely("decodeFromBytes", func() { err = pb.decodeFromBytes(append([]byte{}, wire...), f.v, f.sw) }); fl != nil {
+		return fail("%s (body %x)", fl.Msg, wire)
+	}
+	if err != nil {
+		return fail("%s.decodeFromBytes rejects the body the package serialised: %v\n constructed %s\n body %x", c19ZBodyName(pb), err, c19ZTrim(c19ZRender(body, f)), wire)
+	}
+	if r1, r2 := c19ZRender(body, f), c19ZRender(pb, f); r1 != r2 {
+		return fail("decoded body differs from the constructed one:\n constructed %s\n decoded     %s\n body %x", c19ZTrim(r1), c19ZTrim(r2), wire)
+	}
+	var wire2 []byte
+	if fl := c19ZSafely("re-serialize", func() { wire2, err = pb.serialize(f.v, f.sw) }); fl != nil {
+		return fail("%s", fl.Msg)
+	}
+	if err != nil || !bytes.Equal(wire, wire2) {
+		return fail("decoded body re-serialises differently (%v): %x vs %x", err, wire, wire2)
+	}
+	return nil
+}
+
+func c19ZProbeRoute(msg MessageFlag) *IPRouteBody {
+	return &IPRouteBody{Safi: SafiUnicast, Message: msg, Prefix: Prefix{Family: syscall.AF_INET, PrefixLen: 24, Prefix: netip.MustParseAddr("10.0.0.0")}}
+}
+
+func c19ZProbeNexthop() Nexthop {
+	return Nexthop{Type: nexthopTypeIPv4, Gate: netip.MustParseAddr("192.0.2.1")}
+}
+
+var c19ZProbes = map[string]func() *verifkit.Failure{
+	"zebra-tableid-decoded-into-mtu": func() *verifkit.Failure {
+		r := c19ZProbeRoute(messageTableID)
+		r.tableID = 7
+		return c19ZProbeRT("zebra-tableid-decoded-into-mtu", "v6-frr8.1", r)
+	},
+	"zebra-opaque-full-array": func() *verifkit.Failure {
+		r := c19ZProbeRoute(messageOpaque)
+		r.opaque.length = 4
+		copy(r.opaque.data[:], []byte{1, 2, 3, 4})
+		return c19ZProbeRT("zebra-opaque-full-array", "v6-frr8.1", r)
+	},
+	"zebra-frr7.5-srte-bit": func() *verifkit.Failure {
+		const key = "zebra-frr7.5-srte-bit"
+		// MESSAGE_SRTE is 0x100 on frr7.5: the colour must travel
+		r := c19ZProbeRoute(MessageNexthop | 0x100)
+		n := c19ZProbeNexthop()
+		n.srteColor = 5
+		r.Nexthops = []Nexthop{n}
+		if f := c19ZProbeRT(key, "v6-frr7.5", r); f != nil {
+			return f
+		}
+		// 0x200 is not defined on frr7.5: no block may be emitted for it
+		r = c19ZProbeRoute(MessageNexthop | 0x200)
+		r.Nexthops = []Nexthop{c19ZProbeNexthop()}
+		return c19ZProbeRT(key, "v6-frr7.5", r)
+	},
+	"zebra-label-block-precedence": func() *verifkit.Failure {
+		r := c19ZProbeRoute(MessageNexthop)
+		r.Nexthops = []Nexthop{c19ZProbeNexthop()}
+		return c19ZProbeRT("zebra-label-block-precedence", "v6-frr7.2", r)
+	},
+	"zebra-backup-nexthops-no-version-guard": func() *verifkit.Failure {
+		const key = "zebra-backup-nexthops-no-version-guard"
+		if f := c19ZProbeRT(key, "v6-frr7", c19ZProbeRoute(MessageLabel)); f != nil {
+			return f
+		}
+		return c19ZProbeRT(key, "v5-frr5", c19ZProbeRoute(MessageLabel))
+	},
+	"zebra-frr7.4-route-header-size": func() *verifkit.Failure {
+		return c19ZProbeRT("zebra-frr7.4-route-header-size", "v6-frr7.4", c19ZProbeRoute(0))
+	},
+	"zebra-nexthop-register-frr8.2": func() *verifkit.Failure {
+		b := &NexthopRegisterBody{Nexthops: []*RegisteredNexthop{
+			{connected: 1, resolveViaDef: 1, safi: uint16(SafiUnicast), Family: syscall.AF_INET, Prefix: netip.MustParseAddr("192.0.2.1")},
+			{safi: uint16(SafiUnicast), Family: syscall.AF_INET6, Prefix: netip.MustParseAddr("2001:db8::1")},
+		}}
+		return c19ZProbeRT("zebra-nexthop-register-frr8.2", "v6-frr8.2", b)
+	},
+	"zebra-hello-v4-length": func() *verifkit.Failure {
+		return c19ZProbeRT("zebra-hello-v4-length", "v4-frr3", &HelloBody{redistDefault: RouteBGP, instance: 1})
+	},
+	"zebra-nexthop-update-frr8.2": func() *verifkit.Failure {
+		b := &NexthopUpdateBody{Prefix: Prefix{Family: syscall.AF_INET, PrefixLen: 32, Prefix: netip.MustParseAddr("192.0.2.1")}, Metric: 10, Safi: SafiUnicast}
+		return c19ZProbeRT("zebra-nexthop-update-frr8.2", "v6-frr8.2", b)
+	},
+	// NewSoftware(5, "cumulus"), the documented configuration for Cumulus Linux, was turned into frr.
+	"zebra-newsoftware-cumulus-renamed": func() *verifkit.Failure {
+		if sw := NewSoftware(5, "cumulus"); sw.name != "cumulus" {
+			return verifkit.Failf("zebra-newsoftware-cumulus-renamed", "NewSoftware(5, \"cumulus\") = %+v: the Cumulus tables are unreachable with the documented software name", sw)
+		}
+		return nil
+	},
+	// version 5 without software name is documented as FRRouting 5.0.x; the default was never applied.
+	"zebra-newsoftware-zapi5-default": func() *verifkit.Failure {
+		if sw := NewSoftware(5, ""); sw.name != "frr" || sw.version != 5 {
+			return verifkit.Failf("zebra-newsoftware-zapi5-default", "NewSoftware(5, \"\") = %+v, documented default is FRRouting 5", sw)
+		}
+		return nil
+	},
+	// IPRouteBody.serialize indexed Nexthops[-1] for an EVPN route without nexthop on ZAPI 5.
+	"zebra-evpn-v5-no-nexthop-panics": func() *verifkit.Failure {
+		const key = "zebra-evpn-v5-no-nexthop-panics"
+		f := c19ZFl("v5-frr5")
+		r := c19ZProbeRoute(0)
+		r.Flags = flagEvpnRoute.ToEach(f.v, f.sw)
+		var err error
+		if fl := c19ZSafely("serialize", func() { _, err = r.serialize(f.v, f.sw) }); fl != nil {
+			return verifkit.Failf(key, "[v5-frr5] IPRouteBody with the EVPN flag and no nexthop: %s", fl.Msg)
+		}
+		if err != nil {
+			return verifkit.Failf(key, "[v5-frr5] IPRouteBody with the EVPN flag and no nexthop does not serialise: %v", err)
+		}
+		return nil
+	},
+}
+
 func TestVerifC19_zebra(t *testing.T) {
+	for key, p := range c19ZProbes {
+		verifkit.RegisterProbe("C19_zebra", key, func(*verifkit.Stats) *verifkit.Failure { return p() })
+	}
 	verifkit.Run(t, "C19_zebra", drawC19Z, runC19Z)
 }
 
